@@ -21,7 +21,7 @@ from txtorcon.interface import IAddrListener               # noqa: E402
 assert os.path.abspath(txtorcon.__file__).startswith(os.path.abspath(REPO)), txtorcon.__file__
 
 NAMES = {"n1": "www.n1.example", "n2": "n2abcdefghij.onion"}
-ADDRS = {"a1": "10.0.0.1", "a2": "10.0.0.2", "b1": "10.0.1.1", "b2": "2001:db8::1"}
+ADDRS = {"a1": "10.0.0.1", "a2": "10.0.0.2", "b1": "10.0.1.1", "b2": "2001:db8::1", "s": "10.0.9.9"}
 BASE = datetime.datetime(2030, 1, 1, 12, 0, 0)
 FMT = "%Y-%m-%d %H:%M:%S"
 NEVER = 999
